@@ -10,6 +10,7 @@ import (
 	"fmt"
 	"os"
 	"strings"
+	"time"
 
 	netty "github.com/go-netty/go-netty"
 	"github.com/go-netty/go-netty/utils/pool/pbytes"
@@ -22,6 +23,7 @@ import (
 type callSpec struct {
 	Kind    int  `json:"kind"` // 0 Write1 1 Writev 2 CtxWrite1 3 CtxWritev 4 Writer().Write
 	CtxDone bool `json:"ctxdone,omitempty"`
+	CtxLive bool `json:"ctxlive,omitempty"` // a cancellable context that is never cancelled (Done() != nil)
 	Size    int  `json:"size"`
 	Segs    int  `json:"segs,omitempty"` // vector writes: number of segments (0 = two)
 }
@@ -79,6 +81,7 @@ type obs struct {
 	TClosed    int
 	Parked     []string
 	MaxQ       int
+	Stuck      string // a goroutine blocked although the scheduler's enabling condition said it could proceed
 	viol       []hx.Violation
 }
 
@@ -140,6 +143,8 @@ func runCfg(c cfg, choose func(step int, en []*sched.Thread, last *sched.Thread)
 		ch = netty.NewAsyncWriteChannel(c.QCap, c.Until)(1, parent, pl, tr, ex)
 	}
 	netty.VerifAttach(pl, ch)
+	live, liveCancel := context.WithCancel(context.Background())
+	_ = liveCancel
 	cancelled, cancelFn := context.WithCancel(context.Background())
 	cancelFn()
 	cur := map[int]*callObs{}
@@ -174,6 +179,9 @@ func runCfg(c cfg, choose func(step int, en []*sched.Thread, last *sched.Thread)
 				buf := payload(co.Cid, cs.Size)
 				co.Payload = append([]byte(nil), buf...)
 				cctx := context.Background()
+				if cs.CtxLive {
+					cctx = live
+				}
 				if cs.CtxDone {
 					cctx = cancelled
 				}
@@ -239,6 +247,7 @@ func runCfg(c cfg, choose func(step int, en []*sched.Thread, last *sched.Thread)
 	})
 	var last *sched.Thread
 	step := 0
+	s.StuckAfter = 1500 * time.Millisecond
 	s.Run(func(en []*sched.Thread) *sched.Thread {
 		k := choose(step, en, last)
 		step++
@@ -246,6 +255,9 @@ func runCfg(c cfg, choose func(step int, en []*sched.Thread, last *sched.Thread)
 		last = en[k]
 		return en[k]
 	})
+	if s.Stuck != nil {
+		o.Stuck = s.Stuck.Name + "@" + s.Stuck.Point
+	}
 	o.Trace = s.Trace
 	o.Log = tr.Snapshot()
 	o.Final = netty.VerifState(ch)
@@ -270,6 +282,15 @@ func check(c cfg, o *obs, meta *hx.Meta) {
 	byCid := map[int]*callObs{}
 	for _, cl := range o.Calls {
 		byCid[cl.Cid] = cl
+	}
+	if o.Stuck != "" {
+		prop, what := "C02", "a goroutine blocked for ever outside every hook: "+o.Stuck
+		if strings.HasPrefix(o.Stuck, "w") && !c.Until {
+			prop, what = "C18", "a write call on a NON-BLOCKING channel blocked (it must return 'no space' at once when the queue is full): "+o.Stuck
+		}
+		meta.Violate(hx.Violation{Property: prop, Signature: "blocked-call", What: what, Replay: rep()})
+		meta.Violate(hx.Violation{Property: "C01", Signature: "blocked-call", What: what, Replay: rep()})
+		return
 	}
 	// reconstruct the packets on the transport
 	type sent struct {
